@@ -46,6 +46,20 @@ class Scratch:
         open(p, "w").write(s)
         return True
 
+    def edit_line(self, relfile, line, before, after):
+        """replace line `line` (1-based), which must read exactly `before`, by the lines in `after` (a list; empty = delete)"""
+        p = os.path.join(self.repo, relfile)
+        lines = open(p).read().split("\n")
+        if line < 1 or line > len(lines) or lines[line - 1] != before:
+            # the line moved: accept a unique occurrence of the same text elsewhere in the file
+            idx = [i for i, l in enumerate(lines) if l == before]
+            if len(idx) != 1:
+                return False
+            line = idx[0] + 1
+        lines[line - 1:line] = list(after)
+        open(p, "w").write("\n".join(lines))
+        return True
+
     def apply_patch(self, patch_path):
         return subprocess.call(["git", "apply", "--unsafe-paths", "--directory", self.repo, patch_path]) == 0 \
             if False else subprocess.call(["patch", "-p1", "-s", "-d", self.repo, "-i", patch_path]) == 0
